@@ -1,1 +1,68 @@
-From Emd Require Import Base.Prelude Model.H5 Model.Emd Model.Reader.
+(* C18 -- a save that fails does not damage what the file already held.  Statements only.
+   Fault model (Model/Fault.v): a budget of HDF5 mutations that still succeed; the theorems quantify over
+   EVERY budget, i.e. every fault point, and over completed as well as failed runs.  Single fault per save;
+   a fault during the rollback itself and process crashes are outside the model (DESIGN.md). *)
+From Emd Require Import Base.Prelude Model.H5 Model.Emd Model.Fault Proofs.PTree Proofs.PFault.
+
+(* append mode: whatever the fault point, the file group is only EXTENDED: every object that was there is still
+   at its path with the same attributes and the same datasets (ext, made explicit by the two lemmas below) *)
+Theorem C18_append_mode_only_extends :
+  forall n g b g' b' ok, append_branch_b false n g b = (g', b', ok) -> ext g g'.
+Proof. exact append_mode_only_extends. Qed.
+Print Assumptions C18_append_mode_only_extends.
+
+Theorem C18_extended_means_still_there :
+  forall g g', ext g g' -> forall p o, lookup g p = Some o -> exists o', lookup g' p = Some o' /\ ext o o'.
+Proof. exact ext_lookup. Qed.
+Print Assumptions C18_extended_means_still_there.
+
+Theorem C18_extended_means_same_own_content :
+  forall o o', ext o o' -> oattrs o' = oattrs o /\
+    forall k d, get (olinks o) k = Some d -> is_group d = false -> get (olinks o') k = Some d.
+Proof. exact ext_same_own. Qed.
+Print Assumptions C18_extended_means_same_own_content.
+
+(* append-over: a replace step that fails at ANY point (move, writing the new node, any re-link, the final
+   delete) leaves the parent group EXACTLY as it was -- in particular no "_tmp_" scratch group *)
+Theorem C18_failed_replace_restores_the_parent_group :
+  forall n a l b p' b', NoDup (keys l) -> ~ In (tmpname (rname n)) (keys l) ->
+    overwrite_b n (G a l) b = (p', b', false) -> p' = G a l.
+Proof. exact overwrite_fail_restores. Qed.
+Print Assumptions C18_failed_replace_restores_the_parent_group.
+
+Theorem C18_failed_root_metadata_entry_restores_the_bundle :
+  forall ao existing kt a l b g' b', NoDup (keys l) -> ~ In (tmpname (fst kt)) (keys l) ->
+    md_entry_b ao existing kt (G a l) b = (g', b', false) -> g' = G a l.
+Proof. exact md_entry_fail_restores. Qed.
+Print Assumptions C18_failed_root_metadata_entry_restores_the_bundle.
+
+(* The STRICT statement also for append-over -- nodes replaced before the failure point hold what they held
+   before -- is false: append-over is not transactional (known finding).  Witness: replacing "a" succeeds,
+   then the write of the new node "b" fails; "a" holds the new content. *)
+Definition C18_strict_ao : Prop :=
+  forall n g b g' b', append_branch_b true n g b = (g', b', false) ->
+    forall p o, lookup g p = Some o -> exists o', lookup g' p = Some o' /\ oattrs o' = oattrs o
+      /\ forall k d, get (olinks o) k = Some d -> is_group d = false -> get (olinks o') k = Some d.
+Theorem C18_strict_ao_refuted : ~ C18_strict_ao.
+Proof.
+  intros H.
+  set (g := G [] [("a", G (tags "array" "Array") [("data", D [("units", AStr "")] [3] 1%Z)])]).
+  set (n := RN CRoot "r" 0%Z 0 [] [RN CArray "a" 2%Z 1 [] []; RN CNode "b" 0%Z 0 [] []]).
+  destruct (append_branch_b true n g (Some 3)) as [[g' b'] ok] eqn:E.
+  assert (ok = false) by (vm_compute in E; injection E; auto). subst ok.
+  destruct (H n g (Some 3) g' b' E ["a"] (G (tags "array" "Array") [("data", D [("units", AStr "")] [3] 1%Z)]) eq_refl) as (o' & Hl & _ & Hd).
+  specialize (Hd "data" (D [("units", AStr "")] [3] 1%Z) eq_refl eq_refl).
+  vm_compute in E. injection E as <- _. vm_compute in Hl. injection Hl as <-. vm_compute in Hd. discriminate.
+Qed.
+Print Assumptions C18_strict_ao_refuted.
+
+(* non-vacuity of the restore theorem: a replace that fails at its last step *)
+Example C18_hypotheses_satisfiable :
+  let l := [("a", G (tags "array" "Array") [("k", G (tags "node" "Node") [])]); ("z", G (tags "node" "Node") [])] in
+  NoDup (keys l) /\ ~ In (tmpname "a") (keys l) /\
+  snd (overwrite_b (RN CNode "a" 0%Z 0 [] []) (G [] l) (Some 3)) = false /\
+  snd (overwrite_b (RN CNode "a" 0%Z 0 [] []) (G [] l) (Some 4)) = true.
+Proof.
+  cbv zeta. split; [repeat (constructor; [cbn; intuition discriminate|]); constructor|].
+  split; [cbn; intuition discriminate|]. split; vm_compute; reflexivity.
+Qed.
